@@ -242,6 +242,9 @@ func runOps(h *Host, ops []Op, hk *execHooks, st *Stats) (*Trace, *Violation) {
 		case "next":
 			r := h.Next(op.Arg)
 			settle(hk.bubble)
+			if h.releaseAuto() {
+				settle(hk.bubble)
+			}
 			got = &r
 			if op.MayComplete && r.Kind != rWaiting && i+1 < len(ops) && ops[i+1].K == "next" {
 				// the handler reported before the dispatching call returned: legal;
